@@ -1030,7 +1030,7 @@ func c10GenRes(r *Rng, odd bool) c10Res {
 			res.Prev = append(res.Prev, [3]string{pickN(r, c10Names), pickN(r, []string{"default", "ns", "ns-1"}), pickN(r, []string{res.Kind, res.Kind, "Deployment", "Pod"})})
 		}
 	}
-	if odd && r.Chance(4) { // malformed previous-id annotations
+	if odd && r.Chance(1) { // malformed previous-id annotations
 		res.Annos = append(res.Annos, [2]string{"internal.config.kubernetes.io/previousNames", "a,b"},
 			[2]string{"internal.config.kubernetes.io/previousNamespaces", "default"},
 			[2]string{"internal.config.kubernetes.io/previousKinds", res.Kind})
@@ -1559,7 +1559,114 @@ func c10GenIdSel(r *Rng, l []c10Res) c10Id {
 	return id
 }
 
+// field paths that exist in (or can be created in) a given resource
+func c10PathsFor(r *Rng, x c10Res, target bool) []string {
+	out := []string{"metadata.name"}
+	for _, kv := range x.Labels {
+		out = append(out, "metadata.labels."+kv[0])
+	}
+	for _, kv := range x.Annos {
+		out = append(out, "metadata.annotations."+kv[0])
+	}
+	cp := map[string]string{"pod": "spec.containers", "tmpl": "spec.template.spec.containers", "cron": "spec.jobTemplate.spec.template.spec.containers"}[x.contPath()]
+	if cp != "" {
+		for _, c := range x.Conts {
+			if c.Image != "" {
+				out = append(out, cp+".[name="+c.Name+"].image", cp+".[name="+c.Name+"].image")
+			}
+			out = append(out, cp+".[name="+c.Name+"].name")
+		}
+		if len(x.Conts) > 0 {
+			out = append(out, cp+".0.image", cp+".*.image", cp+".*.name")
+		}
+		ip := strings.Replace(cp, "containers", "initContainers", 1)
+		for _, c := range x.Inits {
+			out = append(out, ip+".[name="+c.Name+"].image")
+		}
+	}
+	if x.Replicas != "" && x.contPath() != "cron" && x.contPath() != "none" {
+		out = append(out, "spec.replicas")
+	}
+	if target {
+		out = append(out, "metadata.annotations.copied", "metadata.labels.copied", "spec.extra.field")
+		if cp != "" {
+			out = append(out, cp+".[name=new].image", cp+".[name=x].image", cp+".[name=^zz$].image", cp+".[name=x.y].image")
+		}
+	}
+	return out
+}
+
 func c10GenRepl(r *Rng, l []c10Res) c10Repl {
+	if r.Chance(25) || len(l) == 0 {
+		return c10GenReplRandom(r, l)
+	}
+	rp := c10Repl{}
+	src := l[r.Intn(len(l))]
+	rp.Source = &c10Source{c10Id: c10Id{Kind: src.Kind, Name: src.Name}}
+	if r.Chance(30) {
+		rp.Source.Namespace = src.Namespace
+	}
+	if r.Chance(15) {
+		rp.Source.Name = ""
+	}
+	if r.Chance(85) {
+		rp.Source.FieldPath = pickN(r, c10PathsFor(r, src, false))
+	}
+	if r.Chance(30) {
+		rp.Source.Options = &c10Opts{Delimiter: pickN(r, []string{":", "/", ".", "-"}), Index: r.Intn(3)}
+	}
+	nt := 1 + r.Intn(2)
+	for i := 0; i < nt; i++ {
+		tg := l[r.Intn(len(l))]
+		t := c10Target{}
+		s := c10Sel{}
+		if r.Chance(70) {
+			s.Kind = tg.Kind
+		}
+		if r.Chance(60) {
+			s.Name = tg.Name
+		}
+		if r.Chance(15) {
+			s.Namespace = tg.Namespace
+		}
+		if r.Chance(20) {
+			s.Lab = pickN(r, c10LabelSels)
+		}
+		if r.Chance(8) {
+			s.Ann = pickN(r, c10LabelSels)
+		}
+		t.Select = &s
+		if r.Chance(25) {
+			rj := c10Sel{}
+			o := l[r.Intn(len(l))]
+			if r.Chance(70) {
+				rj.Name = o.Name
+			} else {
+				rj.Lab = pickN(r, c10LabelSels)
+			}
+			t.Reject = append(t.Reject, rj)
+		}
+		np := 1
+		if r.Chance(20) {
+			np = 2
+		}
+		for j := 0; j < np; j++ {
+			t.FieldPaths = append(t.FieldPaths, pickN(r, c10PathsFor(r, tg, true)))
+		}
+		if r.Chance(45) {
+			t.Options = &c10Opts{}
+			if r.Chance(55) {
+				t.Options.Delimiter = pickN(r, []string{":", "/", ".", "-", "::"})
+				t.Options.Index = r.Intn(5) - 1
+			}
+			t.Options.Create = r.Chance(55)
+		}
+		rp.Targets = append(rp.Targets, t)
+	}
+	return rp
+}
+
+func c10GenReplRandom(r *Rng, l []c10Res) c10Repl {
 	rp := c10Repl{}
 	if r.Chance(12) {
 		v := pickN(r, []string{"lit", "a:b:c", "", "x/y"})
@@ -1886,7 +1993,7 @@ func runC10(run *Run, rng *Rng, tier string) error {
 			jl = append(jl, j)
 		}
 	}
-	if err := c10RunJobs(jl, 8, 2*time.Second, 5*time.Second); err != nil {
+	if err := c10RunJobs(jl, 8, 1500*time.Millisecond, 3*time.Second); err != nil {
 		return err
 	}
 	for i, c := range cases {
